@@ -199,6 +199,8 @@ def _check_batch(ctx, binary, cases, ideal, dev, findings):
     ctx.cov["evaluations"] += len(cases)
     ctx.cov["traces_validated_against_impl"] += len(cases)
     for c in cases:
+        if len(ctx.violations) >= 5:      # enough confirmed counterexamples; each costs a fresh process
+            break
         verdict, info = judge(c, res[c["id"]], ideal, dev)
         if verdict == "ok":
             continue
